@@ -49,6 +49,11 @@ def dropAll (s : Fix) : List Ev :=
   ((List.range s.n).filter (fun i => s.st i = .ready)).map (fun i => .valDropped ((s.out i).getD 0))
   ++ (List.range s.n).map (fun i => .childDropped i)
 
+/-- stream/wait_until.rs: the deadline's output is a temporary of the `match`; it is released
+    after the inner stream's first poll -/
+def bufEvs (s : Fix) : List Ev := match s.out 0 with | some v => [.valDropped v] | none => []
+def unbuf (s : Fix) : Fix := { s with out := upd s.out 0 none }
+
 def allReady (s : Fix) : Bool := (List.range s.n).all (fun j => s.st j = .ready)
 
 end Fix
@@ -77,6 +82,7 @@ def joinSlice : Policy Fix where
         exit := some (.ready true s.outs) }
     else { s := s, evs := [], kop := .nop, exit := some .pending }
   onPanic s := s.kill
+  panicEvs _ := []
   dropEvs s := s.dropStates
   afterDrop s := { s with dead := true, st := fun _ => .none }
 
@@ -103,6 +109,7 @@ def joinTuple : Policy Fix where
     | _ => s.keep
   finish s := { s := s, evs := [], kop := .nop, exit := some .pending }
   onPanic s := s.kill
+  panicEvs _ := []
   dropEvs s := s.dropStates
   afterDrop s := { s with dead := true, st := fun _ => .none }
 
@@ -131,6 +138,7 @@ def tryJoinSlice : Policy Fix where
         exit := some (.ready true s.outs) }
     else { s := s, evs := [], kop := .nop, exit := some .pending }
   onPanic s := s.kill
+  panicEvs _ := []
   dropEvs s := s.dropStates
   afterDrop s := { s with dead := true, st := fun _ => .none }
 
@@ -160,6 +168,7 @@ def tryJoinTuple : Policy Fix where
     | _ => s.keep
   finish s := { s := s, evs := [], kop := .nop, exit := some .pending }
   onPanic s := s.kill
+  panicEvs _ := []
   dropEvs s := s.dropStates
   afterDrop s := { s with dead := true, st := fun _ => .none }
 
@@ -179,6 +188,7 @@ def race : Policy Fix where
     | _ => s.keep
   finish s := { s := s, evs := [], kop := .nop, exit := some .pending }
   onPanic s := s.kill
+  panicEvs _ := []
   dropEvs s := (List.range s.n).map (fun i => .childDropped i)
   afterDrop s := s.kill
 
@@ -196,7 +206,8 @@ def raceOk (rotate early : Bool) : Policy Fix where
   handle s i r :=
     match r with
     | .ready true v =>
-      { s := s.kill, evs := if early then [.childDropped i] else [], kop := .nop,
+      { s := { s with dead := true, st := if early then upd s.st i .none else s.st },
+        evs := if early then [.childDropped i] else [], kop := .nop,
         exit := some (.ready true [v]) }
     | .ready false v =>
       { s := { s with st := upd s.st i .ready, out := upd s.out i (some v), cnt := s.cnt + 1 },
@@ -208,6 +219,7 @@ def raceOk (rotate early : Bool) : Policy Fix where
         exit := some (.ready false s.outs) }
     else { s := s, evs := [], kop := .nop, exit := some .pending }
   onPanic s := s.kill
+  panicEvs _ := []
   dropEvs s :=
     if early then
       ((List.range s.n).filter (fun i => s.st i = .ready)).map (fun i => .valDropped ((s.out i).getD 0))
@@ -239,6 +251,7 @@ def merge : Policy Fix where
     | _ => s.keep
   finish s := { s := s, evs := [], kop := .nop, exit := some .pending }
   onPanic s := s.kill
+  panicEvs _ := []
   dropEvs s := (List.range s.n).map (fun i => .childDropped i)
   afterDrop s := s.kill
 
@@ -265,6 +278,7 @@ def zip : Policy Fix where
     | _ => s.keep
   finish s := { s := s, evs := [], kop := .nop, exit := some .pending }
   onPanic s := s.kill
+  panicEvs _ := []
   dropEvs s := s.dropAll
   afterDrop s := { s with dead := true, st := fun _ => .none }
 
@@ -285,6 +299,7 @@ def chain : Policy Fix where
     | _ => { s := s, evs := [], kop := .nop, exit := some .pending }
   finish s := { s := s.kill, evs := [], kop := .nop, exit := some .none }
   onPanic s := s.kill
+  panicEvs _ := []
   dropEvs s := (List.range s.n).map (fun i => .childDropped i)
   afterDrop s := s.kill
 
@@ -302,11 +317,12 @@ def waitUntilF : Policy Fix where
   handle s i r :=
     match r with
     | .ready _ v =>
-      if i = 0 then { s := { s with cnt := 1 }, evs := [], kop := .nop, exit := none }
+      if i = 0 then { s := { s with cnt := 1 }, evs := [.valDropped v], kop := .nop, exit := none }
       else { s := s.kill, evs := [], kop := .nop, exit := some (.ready true [v]) }
     | _ => { s := s, evs := [], kop := .nop, exit := some .pending }
   finish s := { s := s, evs := [], kop := .nop, exit := some .pending }
   onPanic s := s.kill
+  panicEvs _ := []
   dropEvs _ := [.childDropped 1, .childDropped 0]
   afterDrop s := s.kill
 
@@ -322,14 +338,15 @@ def waitUntilS : Policy Fix where
   child _ i := i
   handle s i r :=
     match r with
-    | .ready _ _ =>
-      if i = 0 then { s := { s with cnt := 1 }, evs := [], kop := .nop, exit := none }
+    | .ready _ v =>
+      if i = 0 then { s := { s with cnt := 1, out := upd s.out 0 (some v) }, evs := [], kop := .nop, exit := none }
       else { s := s, evs := [], kop := .nop, exit := some .pending }
-    | .item v => { s := s, evs := [], kop := .nop, exit := some (.some 0 [v]) }
-    | .fin => { s := s.kill, evs := [], kop := .nop, exit := some .none }
-    | _ => { s := s, evs := [], kop := .nop, exit := some .pending }
+    | .item v => { s := s.unbuf, evs := s.bufEvs, kop := .nop, exit := some (.some 0 [v]) }
+    | .fin => { s := s.unbuf.kill, evs := s.bufEvs, kop := .nop, exit := some .none }
+    | _ => { s := s.unbuf, evs := s.bufEvs, kop := .nop, exit := some .pending }
   finish s := { s := s, evs := [], kop := .nop, exit := some .pending }
-  onPanic s := s.kill
+  onPanic s := s.unbuf.kill
+  panicEvs s := s.bufEvs
   dropEvs _ := [.childDropped 1, .childDropped 0]
   afterDrop s := s.kill
 
